@@ -28,6 +28,7 @@ func NewTomlDecoder() Decoder {
 }
 
 func (dec *tomlDecoder) Init(reader io.Reader) error {
+	verifYield("decoder.Init")
 	dec.parser = toml.Parser{}
 	buf := new(bytes.Buffer)
 	_, err := buf.ReadFrom(reader)
@@ -194,6 +195,7 @@ func (dec *tomlDecoder) decodeNode(tomlNode *toml.Node) (*CandidateNode, error) 
 }
 
 func (dec *tomlDecoder) Decode() (decoded *CandidateNode, decodeError error) {
+	verifYield("decoder.Decode")
 	if dec.finished {
 		return nil, io.EOF
 	}
